@@ -12,7 +12,7 @@
 import time
 from fractions import Fraction
 
-from vt.c18_util import (FixedSampler, boollist, ensure_dirs, fr, patched, queue_fn,
+from vt.c18_util import (bulk, FixedSampler, boollist, ensure_dirs, fr, patched, queue_fn,
                          quiet_logs, run_jobs, zs, zs_floor)
 from vt.common import cq, cz
 
@@ -205,7 +205,7 @@ def cvrp(run):
     B = 64 if run.thorough else 8
     plan = [(n, dist, kw, B) for n in sizes for dist, kw in dists if dist == "uniform" or n in (20, 50)]
     if run.thorough:      # bulk: 10^4 small rows
-        plan += [(10, "uniform", {}, 1000)] * 6 + [(13, "uniform", {}, 1000)] * 4
+        plan += [(10, "uniform", {}, 1000)] * bulk(6) + [(13, "uniform", {}, 1000)] * bulk(4)
     for (n, dist, kw, B) in plan:
         if True:
             seed = run.seed()
@@ -331,7 +331,7 @@ def cvrptw(run):
     B = 48 if run.thorough else 8
     plan = [(n, scale, mt, B) for n in ([5, 10, 20, 50, 100] if run.thorough else [5, 20, 50]) for scale in (False, True) for mt in (480, 600)]
     if run.thorough:      # bulk: 10^4 small rows
-        plan += [(6, False, 480, 1000)] * 5 + [(6, True, 480, 1000)] * 3 + [(8, False, 600, 1000)] * 2
+        plan += [(6, False, 480, 1000)] * bulk(5) + [(6, True, 480, 1000)] * bulk(3) + [(8, False, 600, 1000)] * bulk(2)
     for (n, scale, mt, B) in plan:
         if True:
             if True:
@@ -539,7 +539,7 @@ def mtvrp(run):
     B = 24 if run.thorough else 4
     plan = [(name, n, B) for name in VARIANT_GENERATION_PRESETS for n in sizes if not (n == 50 and name not in ("all", "ovrpbltw", "vrptw"))]
     if run.thorough:      # bulk: 10^4 small rows over all presets
-        plan += [(name, 5, 530) for name in VARIANT_GENERATION_PRESETS]
+        plan += [(name, 5, 53 * bulk(10)) for name in VARIANT_GENERATION_PRESETS]
     for (name, n, B) in plan:
         if True:
             seed = run.seed()
@@ -647,7 +647,7 @@ def op_svrp_misc(run):
     pcases, pmetas = [], []
     plan = [(pt, n, 8) for pt in ("dist", "const", "unif") for n in (7, 20, 50, 100)]
     if run.thorough:      # bulk: 10^4 rows
-        plan += [("dist", 10, 1000)] * 4 + [("unif", 10, 1000)] * 4 + [("const", 10, 1000)] * 2
+        plan += [("dist", 10, 1000)] * bulk(4) + [("unif", 10, 1000)] * bulk(4) + [("const", 10, 1000)] * bulk(2)
     for (pt, n, B) in plan:
         seed = run.seed()
         base = {"unit": "routing", "gen": "op", "kind": "generated", "kwargs": {"num_loc": n, "prize_type": pt}, "torch_seed": seed, "batch": B}
@@ -697,7 +697,7 @@ def op_svrp_misc(run):
     cases, metas = [], []
     plan = [(n, costs, 16 if run.thorough else 6) for n, costs in ((10, [1, 2, 3]), (20, [1, 2, 3, 4, 5]), (7, [1]))]
     if run.thorough:      # bulk: 10^4 rows
-        plan += [(8, [1, 2, 3], 1000)] * 10
+        plan += [(8, [1, 2, 3], 1000)] * bulk(10)
     for (n, costs, B) in plan:
         seed = run.seed()
         td = SVRPGenerator(num_loc=n, tech_costs=costs)(B)
@@ -733,7 +733,7 @@ def op_svrp_misc(run):
                 run.ctx.failure(SIG["pdp"], dict(metas[-1], what="shapes / ranges", shapes={k: list(v.shape) for k, v in td.items()}), tag=name)
             run.ctx.seen({"pdp": [name, n, seed]}, nontrivial=True)
     run.add("pdp", "Z * Z", "check_pdp", cases, metas, mismatch_handler(run, "pdp num_loc"))
-    for (n, Bm) in [(5, 16), (20, 16), (33, 16)] + ([(10, 2500)] * 4 if run.thorough else []):
+    for (n, Bm) in [(5, 16), (20, 16), (33, 16)] + ([(10, 250 * bulk(10))] * 4 if run.thorough else []):
         seed = run.seed()
         td = MTSPGenerator(num_loc=n, min_num_agents=2, max_num_agents=4)(Bm)
         ok = tuple(td["locs"].shape) == (Bm, n, 2) and int(td["num_agents"].min()) >= 2 and int(td["num_agents"].max()) <= 4
